@@ -158,6 +158,19 @@ def bayer_string_rule(chk, repo, clause):
         if ra is not None and is_app(ra, 'm:reshape') and ('sym', 'bayer_string') in nf.value_atoms(ra[2][0]):
             ok, det = True, 'characters in string order reshaped to (dim, dim) in C order'
     chk.ob(clause, 'U-axis', f.key, 'the pattern string is read row-major', ok, det, f.loc())
+    # the channel kernels compare the cells with 'R', 'G', 'B': the cells are the letters of the upper-cased string (a pattern
+    # accepted in lower case and stored as given matches no channel)
+    okc, detc = None, ''
+    for p in returns(paths):
+        ups = {a: S('__upper__') for a in nf.value_atoms(p.ret) if is_app(a, 'm:upper') and a[2] and a[2][0] == S('bayer_string')}
+        rest = nf.subst_value(p.ret, ups) if ups else p.ret
+        raw = ('sym', 'bayer_string') in nf.value_atoms(rest)
+        accepts_lower = any(is_app(a, 'm:upper') for c, _pol, _n in p.conds for a in nf.value_atoms(c)) or bool(ups)
+        if raw and accepts_lower:
+            okc, detc = False, f'returns {fmt(p.ret)[:100]}: built from the string as given although the validity test upper-cases it'
+        elif not raw and ups and okc is None:
+            okc = True
+    chk.ob(clause, 'T-letter', f.key, 'the cells are the letters of the upper-cased pattern', okc, detc, f.loc())
 
 
 def fit_tilt_rules(chk, repo, clause):
